@@ -12,11 +12,20 @@ Decisions (documented here because they shape what is compared):
   by a kept box of rank >= its own; kept boxes must not be covered by a kept box that precedes them IN THE OUTPUT
   (which must be ordered by non-increasing rank).  Tie order itself is pinned by the exact correspondence (stable sort)
   and, where it matters for the property, by idempotence.
+* INDEPENDENT geometry: besides the oracle ratios taken from the implementation, the two coverage clauses ("no kept box
+  has more than the threshold fraction of its area covered by a higher-ranked kept box", "every dropped box is so covered
+  by some kept higher-ranked box") are re-checked with a coverage ratio computed HERE, from (xc, yc, angle, aspect, height)
+  only, in float64: the lower box's corners are rotated into the higher box's frame and clipped against its four
+  axis-aligned sides, area by the shoelace formula, divided by aspect*height^2.  A pair is judged only when that ratio is
+  away from the threshold by more than MARGIN_REL*thr + MARGIN_ABS (f32 rounding of the implementation's ratio is ~1e-7);
+  near-threshold pairs are counted and skipped.  This is what catches a wrong `Universal2DBox::intersection`, which the
+  model (fed with the implementation's own ratios) cannot see.
 * a box without a score passes the score filter (the implementation substitutes f32::MAX for the missing score).
 * generated inputs are finite (no NaN/inf fields): the quantifier of C14 has none.
 """
 import hashlib
 import json
+import math
 import os
 from collections import Counter
 from fractions import Fraction
@@ -31,6 +40,8 @@ Open Scope Q_scope.
 """
 
 F32_MAX = Fraction(2 ** 128 - 2 ** 104)
+MARGIN_REL = 1e-3
+MARGIN_ABS = 1e-6
 
 
 def is_finite_bits(b):
@@ -201,7 +212,110 @@ def oracle(c):
     return out
 
 
+
 # ------------------------------------------------------------------------------------------------------------
+# independent geometry (own code; nothing of the crate is used)
+
+def _clip_halfplane(poly, axis, sign, bound):
+    """keep the part of the convex polygon with sign * p[axis] <= bound"""
+    out = []
+    n = len(poly)
+    for i in range(n):
+        p, q = poly[i - 1], poly[i]
+        dp, dq = sign * p[axis] - bound, sign * q[axis] - bound
+        if dq <= 0:
+            if dp > 0:
+                t = dp / (dp - dq)
+                out.append((p[0] + t * (q[0] - p[0]), p[1] + t * (q[1] - p[1])))
+            out.append(q)
+        elif dp <= 0:
+            t = dp / (dp - dq)
+            out.append((p[0] + t * (q[0] - p[0]), p[1] + t * (q[1] - p[1])))
+    return out
+
+
+def _box_floats(b):
+    f = vlib.f32_bits_to_float
+    return f(b[0]), f(b[1]), (0.0 if b[2] is None else f(b[2])), f(b[3]), f(b[4])
+
+
+def independent_ratio(hi, lo):
+    """area(hi intersect lo) / area(lo) for two boxes of positive size, float64"""
+    hx, hy, ha, hasp, hh = _box_floats(hi)
+    lx, ly, la, lasp, lh = _box_floats(lo)
+    hw2, hh2 = hasp * hh / 2.0, hh / 2.0
+    lw2, lh2 = lasp * lh / 2.0, lh / 2.0
+    cl, sl = math.cos(la), math.sin(la)
+    ch, sh = math.cos(ha), math.sin(ha)
+    poly = []
+    for dx, dy in ((-lw2, -lh2), (lw2, -lh2), (lw2, lh2), (-lw2, lh2)):
+        wx, wy = lx + dx * cl - dy * sl - hx, ly + dx * sl + dy * cl - hy      # world, relative to hi's centre
+        poly.append((wx * ch + wy * sh, -wx * sh + wy * ch))                     # in hi's frame
+    for axis, sign, bound in ((0, 1.0, hw2), (0, -1.0, hw2), (1, 1.0, hh2), (1, -1.0, hh2)):
+        poly = _clip_halfplane(poly, axis, sign, bound)
+        if len(poly) < 3:
+            return 0.0
+    a = 0.0
+    for i in range(len(poly)):
+        p, q = poly[i - 1], poly[i]
+        a += p[0] * q[1] - q[0] * p[1]
+    return abs(a) / 2.0 / (4.0 * lw2 * lh2)
+
+
+def geometry_oracle(c, stats=None):
+    """the two coverage clauses re-checked with the independent ratio; returns [(key, message)]"""
+    if c["kept"] == "P" or not all_finite(c):
+        return []
+    n, rank, ps, valid, covers, ratio, thr = facts(c)
+    kept = c["kept"]
+    if any((not ps[i]) or (not valid[i]) for i in kept) or len(set(kept)) != len(kept):
+        return []                                   # already reported by the plain oracle
+    t = float(thr)
+    margin = MARGIN_REL * t + MARGIN_ABS
+    cache = {}
+
+    def judge(a, b):
+        """+1 covered for sure, -1 not covered for sure, 0 too close to the threshold"""
+        if (a, b) not in cache:
+            r = independent_ratio(c["boxes"][a], c["boxes"][b])
+            if stats is not None:
+                stats["pairs_judged"] += 1
+                ri = ratio(a, b)
+                if ri is not None:
+                    stats["max_abs_diff_impl_vs_independent"] = max(stats["max_abs_diff_impl_vs_independent"], abs(float(ri) - r))
+            v = 1 if r > t + margin else -1 if r < t - margin else 0
+            if v == 0 and stats is not None:
+                stats["pairs_skipped_near_threshold"] += 1
+            cache[(a, b)] = (v, r)
+        return cache[(a, b)]
+    out = []
+    for q in range(len(kept)):
+        for p in range(q):
+            v, r = judge(kept[p], kept[q])
+            if v > 0:
+                out.append(("C14:independent-geom", "kept box #%d has %.6f of its area (> %s) covered by the higher-ranked kept box #%d "
+                            "(independent polygon clipping; the implementation's own ratio is %s)" % (
+                                kept[q], r, t, kept[p], None if ratio(kept[p], kept[q]) is None else float(ratio(kept[p], kept[q])))))
+                break
+        if out:
+            break
+    ks = set(kept)
+    for d in range(n):
+        if d in ks or not (ps[d] and valid[d]):
+            continue
+        js = [judge(a, d) for a in kept if rank[a] >= rank[d]]
+        if all(v < 0 for v, _ in js):
+            best = max([r for _, r in js], default=0.0)
+            out.append(("C14:dropped-not-covered-geom", "dropped box #%d (rank %s) has at most %.6f of its area (threshold %s) covered by any "
+                        "kept box of rank >= its own (independent polygon clipping)" % (d, float(rank[d]), best, t)))
+            break
+    return out
+
+# ------------------------------------------------------------------------------------------------------------
+
+def full_oracle(c, stats=None):
+    return oracle(c) + geometry_oracle(c, stats)
+
 
 def run_impl_on(text):
     path = os.path.join(vlib.ALT or vlib.CACHE, "c14_replay_%d.txt" % os.getpid())
@@ -217,7 +331,7 @@ def shrink(c, key):
     """delta debugging on the box list (then the score threshold): keep the failure class `key`"""
     def fails(cc):
         r = run_impl_on(case_text(cc))
-        return r is not None and any(k == key for k, _ in oracle(r))
+        return r is not None and any(k == key for k, _ in full_oracle(r))
     cur = dict(c)
     chunk = max(1, len(cur["boxes"]) // 2)
     while True:
@@ -293,6 +407,7 @@ def run(chk):
     hist = Counter()
     nontrivial = set()
     pairs_checked = 0
+    gstats = {"pairs_judged": 0, "pairs_skipped_near_threshold": 0, "max_abs_diff_impl_vs_independent": 0.0}
     for i, c in enumerate(cases):
         n_b, rank, ps, valid, covers, ratio, thr = facts(c)
         hist["kind=" + c["kind"]] += 1
@@ -328,7 +443,7 @@ def run(chk):
                 loop_vs_rec.append(i)
             if c["kept"] == "P" or loop_r != c["kept"]:
                 disagreements.append(i)
-        for key, msg in oracle(c):
+        for key, msg in full_oracle(c, gstats):
             failures.append((i, key, msg))
     chk.coverage.update({
         "evaluations": len(cases),
@@ -345,6 +460,7 @@ def run(chk):
         "model_vs_impl_disagreements": len(disagreements),
         "model_loop_vs_rec_disagreements": len(loop_vs_rec),
         "property_oracle_failures": len(failures),
+        "independent_geometry": dict(gstats, margin="|ratio - thr| > %g*thr + %g" % (MARGIN_REL, MARGIN_ABS)),
         "exhaustive_small_scope_cases": exhaustive,
         "exhaustive_small_scope": "thorough tier: every ordered list of length <= 3 over a pool of seven boxes (duplicate pair, nested pair, "
                                   "pair overlapping by exactly 1/2, far box, rotated box, invalid box) x nms threshold {1/4, 1/2} x scores "
@@ -361,11 +477,14 @@ def run(chk):
                 continue
             seen.add(key)
             small = shrink(cases[i], key) or cases[i]
-            msgs = [m for k, m in oracle(small) if k == key] or [msg]
+            msgs = [m for k, m in full_oracle(small) if k == key] or [msg]
             chk.violation(key, msgs[0], {
                 "input": case_text(small), "decoded": decoded(small),
                 "coverage_ratios(hi,lo)": {"%d,%d" % k: (None if metric_fraction(v) is None else float(metric_fraction(v))) for k, v in small["M"].items()},
-                "all_oracle_findings_on_this_input": oracle(small),
+                "all_oracle_findings_on_this_input": full_oracle(small),
+                "independent_coverage_ratios(hi,lo)": {"%d,%d" % (a, b): independent_ratio(small["boxes"][a], small["boxes"][b])
+                                                        for a in range(len(small["boxes"])) for b in range(len(small["boxes"]))
+                                                        if a != b and all(f32_bits_to_fraction(small["boxes"][x][y]) > 0 for x in (a, b) for y in (3, 4))} if all_finite(small) else None,
                 "replay_cmd": "./check C14 --replay <this file>",
                 "broken": chk.broken})
     elif disagreements or chk.broken:
@@ -389,7 +508,7 @@ def replay(chk, path):
         print("harness produced nothing")
         return 2
     print(json.dumps(decoded(c), indent=1))
-    res = oracle(c)
+    res = full_oracle(c)
     for k, m in res:
         print("%s: %s" % (k, m))
     if "model_kept" in rep:
